@@ -182,6 +182,23 @@ pub struct Entry {
     pub filetype: EntryType,
 }
 
+/*
+ * Write "ALGORITHM (name) = hash" and "Size (name) = N bytes" lines.  The file
+ * name is written as the raw bytes it was read as: going through Display would
+ * replace anything that is not valid UTF-8 with U+FFFD.
+ */
+fn push_checksum_line(bytes: &mut Vec<u8>, c: &Checksum, filename: &Path) {
+    bytes.extend_from_slice(format!("{} (", c.digest).as_bytes());
+    bytes.extend_from_slice(filename.as_os_str().as_bytes());
+    bytes.extend_from_slice(format!(") = {}\n", c.hash).as_bytes());
+}
+
+fn push_size_line(bytes: &mut Vec<u8>, filename: &Path, size: u64) {
+    bytes.extend_from_slice(b"Size (");
+    bytes.extend_from_slice(filename.as_os_str().as_bytes());
+    bytes.extend_from_slice(format!(") = {} bytes\n", size).as_bytes());
+}
+
 impl Entry {
     /**
      * Create a new [`Entry`].
@@ -308,25 +325,10 @@ impl Entry {
     pub fn as_bytes(&self) -> Vec<u8> {
         let mut bytes = Vec::new();
         for c in &self.checksums {
-            bytes.extend_from_slice(
-                format!(
-                    "{} ({}) = {}\n",
-                    c.digest,
-                    self.filename.display(),
-                    c.hash
-                )
-                .as_bytes(),
-            );
+            push_checksum_line(&mut bytes, c, &self.filename);
         }
         if let Some(size) = self.size {
-            bytes.extend_from_slice(
-                format!(
-                    "Size ({}) = {} bytes\n",
-                    self.filename.display(),
-                    size
-                )
-                .as_bytes(),
-            );
+            push_size_line(&mut bytes, &self.filename, size);
         }
         bytes
     }
@@ -683,39 +685,16 @@ impl Distinfo {
 
         for q in self.distfiles.values() {
             for c in &q.checksums {
-                bytes.extend_from_slice(
-                    format!(
-                        "{} ({}) = {}\n",
-                        c.digest,
-                        q.filename.display(),
-                        c.hash
-                    )
-                    .as_bytes(),
-                );
+                push_checksum_line(&mut bytes, c, &q.filename);
             }
             if let Some(size) = q.size {
-                bytes.extend_from_slice(
-                    format!(
-                        "Size ({}) = {} bytes\n",
-                        q.filename.display(),
-                        size
-                    )
-                    .as_bytes(),
-                );
+                push_size_line(&mut bytes, &q.filename, size);
             }
         }
 
         for q in self.patchfiles.values() {
             for c in &q.checksums {
-                bytes.extend_from_slice(
-                    format!(
-                        "{} ({}) = {}\n",
-                        c.digest,
-                        q.filename.display(),
-                        c.hash
-                    )
-                    .as_bytes(),
-                );
+                push_checksum_line(&mut bytes, c, &q.filename);
             }
         }
 
